@@ -255,7 +255,9 @@ Proof.
   - apply (IH h); assumption.
 Qed.
 
-(* ---- bounded refinement: exhaustive over all traces up to a length over an alphabet ---- *)
+(* ---- bounded refinement: exhaustive over all traces up to a length over an alphabet.
+   Superseded by the unbounded proof in Proofs/C13_Sim.v (Props no longer use it); kept with a small
+   bound as an executable regression check of the model inside Coq. ---- *)
 Fixpoint zlist_eqb (a b : list Z) : bool :=
   match a, b with
   | [], [] => true
@@ -303,7 +305,7 @@ Definition alphabet : list op :=
    OGetUp 0; OGetUp 1; OSetUp 0 5; OSetUp 1 6; OClose 0; OClose 1; OCall 1; OCall 2; ORet; OGrow 5000; OGrow 1048;
    ONewVar 0; ONewVar 1; OTailCall 1 1; OTailCall 1 2].
 
-Definition BOUND : nat := 6.
+Definition BOUND : nat := 5.
 
 Lemma sim_check_bound_a : sim_check alphabet BOUND (init_st 1000 4) init_sst = true.
 Proof. vm_compute. reflexivity. Qed.
